@@ -118,6 +118,29 @@ CLAIMS = {
          "CPLEX model driven through a stand-in module, the 'all minimisers' set, the ILP formulation theorems.",
          "Trusted: Coq kernel + vm_compute; model; harness; CBC through PuLP judged per run only.",
          "DESIGN.md section 4, C05"),
+ "C08": ("Coq model of the jitted BioConsert kernels + verified local-optimality checker evaluated on every returned ranking",
+         "PARTIAL proof. Machine-checked: soundness of the local-optimality test (it bounds the score of EVERY single-element move into every "
+         "existing bucket and into a new bucket at every position of the ranking denoted by the vector), and the prefix-sum lemma of the "
+         "difference array. Not a theorem in this version: 'the model's local search returns a local optimum'. By correspondence: the model of "
+         "_compute_delta_costs / the two scans / _change_bucket / _add_bucket / the sweep loop returns exactly the vector and the delta the "
+         "jitted code returns, from every tie/order pattern of length <= 4 and random vectors up to 8 elements; at API level the model predicts "
+         "the returned rankings and score for 7 starting configurations; every returned ranking passes the checker in Coq.",
+         "Trusted: Coq kernel + vm_compute; model; harness; numba-compiled kernels run as users run them (JIT on); threshold 0.001 = 8 units on the 1/8000 grid.",
+         "DESIGN.md section 4, C08"),
+ "C09": ("Coq model of departures / selection + per-run judgement in Coq of 'score <= every departure'",
+         "PARTIAL proof. Machine-checked: the selection step reports the minimum over the departures' results and PickAPerm's answer is the "
+         "minimum over the (unified) inputs. Per run, in Coq: the departure vectors are recomputed by the model in the id space of the input "
+         "dataset (unified inputs + all-tied, or the starters' own consensus) and every returned ranking scores at most each of them; all "
+         "returned rankings share the reported score; starters Borda, Copeland, PickAPerm, BioCo, two and three at once.",
+         "Trusted: as C08; monotonicity of the local search is not a theorem.",
+         "DESIGN.md section 4, C09"),
+ "C04": ("Per-run judgement in Coq of every reported score against kemeny_spec + theorems for the pieces that are pure",
+         "PARTIAL proof. Machine-checked: kemeny_spec >= 0; PickAPerm's reported minimum is the score of every returned ranking; the cost table "
+         "sums to the score. Per run, in Coq, for 13 algorithm configurations and both values of return_at_most_one_ranking: kemeny_score, "
+         "features[KEMENY_SCORE] and description() give a number equal (1e-6) to kemeny_spec of EVERY returned ranking, never absent or "
+         "negative; lazily computed scores equal the model of the Kemeny routine on the first ranking.",
+         "Trusted: Coq kernel + vm_compute; model; harness; CBC objective value read through PuLP.",
+         "DESIGN.md section 4, C04"),
 }
 NOT_YET = "check not built yet in this phase (planned: DESIGN.md section 4); no claim is made"
 
